@@ -52,6 +52,7 @@ def handlers : List (String × (Json → Except String Json)) := [
   ("C18.scatter_mat", Qv.Drv.C18.scatterMatJ),
   ("C18.constraint", Qv.Drv.C18.constraintJ),
   ("C17.wiener", Qv.Drv.C17.wienerJ),
+  ("C17.wiener_calls", Qv.Drv.C17.wienerCallsJ),
   ("C17.coarsen", Qv.Drv.C17.coarsenJ),
   ("C17.meas", Qv.Drv.C17.measJ),
   ("C16.search", Qv.Drv.C16.searchJ),
